@@ -332,7 +332,7 @@ func run(c *vf.Ctx) {
 	c.Require("rereg_iterations", (plainBatches*plainIters+raceBatches*raceIters)/4)
 	c.Require("startup_iterations", (plainBatches*plainIters+raceBatches*raceIters)/8)
 	c.Require("startup_iterations_n2000", c.Pick(30, 600))
-	c.Require("startup_shutdown_requested_while_start_in_progress", scaled(c.Pick(150, 3000), 10)) // the k-th started handler asked for the shutdown before Start() had returned
+	c.Require("startup_shutdown_requested_while_start_in_progress", scaled(c.Pick(100, 2000), 10)) // the k-th started handler asked for the shutdown before Start() had returned
 	c.Require("rereg_accepted", 10000)
 	c.Require("rereg_attempts_while_old_worker_exiting", scaled(50, 5)) // refusals observed after the old handler had returned: the call raced the exit path
 	c.Require("rereg_accepted_early", scaled(20, 1))                    // ... and the retry was then accepted
